@@ -22,6 +22,11 @@ from props.c06 import pg_partition
 # Repaired: messages are parsed whenever the pool runs plugins (QueryRouter::parses_messages).  No exclusion any more.
 C19_EXCLUDE_AFTER_SET_ROLE = False
 
+# Genuine defect found by this stage on 2a7a370 (F36): a client that connected BEFORE its user was removed by a RELOAD and
+# re-added by a later RELOAD was not held by a later PAUSE (Client::handle waited on its stale pool object).  Repaired in /repo
+# 75dfce1 (the pool is looked up before wait_paused as well): no exclusion any more, such sessions must be held.
+C16_EXCLUDE_READDED_USER = False
+
 TRACKED = ["client_encoding", "DateStyle", "TimeZone", "standard_conforming_strings", "application_name"]
 TAG_RE = re.compile(r"/\*t(\d+)_(\d+)\*/")
 INTERCEPT_SQL = "select 7 as intercepted"
@@ -211,6 +216,7 @@ class CS:
         self.cur_shard = None
         self.follow = 0               # plain transactions still owed after a custom command / plugin verdict
         self.removed = False          # its user has been removed by a reload
+        self.readded = False          # ... and re-added since this client connected
 
 
 KINDS = {}
@@ -330,7 +336,7 @@ class Builder:
             u = user_cfg(self.cfg, cs.user)
             op.update({"holders_before": self.holders(cs.user), "pool_size": u["pool_size"] if u else None, "anypaused": bool(self.paused)})
             op.update({"first": not cs.holding, "txn_before": cs.txn, "ps": cs.ps, "mode": cs.mode, "paused": cs.user in self.paused,
-                       "stale": cs.stale, "fragile": cs.fragile, "removed": cs.removed})
+                       "stale": cs.stale, "fragile": cs.fragile, "removed": cs.removed, "readded": cs.readded})
         op.update(kw)
         self.ops.append(op)
         self.count(kind_)
@@ -468,7 +474,7 @@ class Builder:
         for name, text in parses:
             if cs.ps:
                 self.distinct_texts[cs.user].add(text)
-        op["cache_overflow"] = len(self.distinct_texts[cs.user]) > self.cfg["pool"]["prepared_statements_cache_size"]
+        op["cache_overflow"] = bool(cs.ps) and len({t for _, t in parses} | {cs.named.get(n) for n in binds if n in cs.named and n not in dict(parses)}) > max(1, self.cfg["pool"]["prepared_statements_cache_size"])
         self.mark(tag)
         self.steps.append({"op": "send", "c": cs.name, "msgs": msgs})
         self.steps.append({"op": "recv", "c": cs.name, "until": "Z", "count": max(1, op["syncs"]), "timeout_ms": 4000, "label": tag})
@@ -663,7 +669,7 @@ def _budget(b, cs, extra=1):
 def _ext(name, w=1.0, req=(), pred=lambda b, c: True):
     def deco(fn):
         def run(b):
-            cs = _fwd(b, lambda c: not c.fragile and pred(b, c))
+            cs = _fwd(b, lambda c: not c.fragile and not (c.stale and c.ps) and pred(b, c))
             if not cs:
                 return False
             tag = b.tag(cs)
@@ -826,8 +832,10 @@ def _(b, cs):
     cs.shard_sel = ["sticky", b.sticky_n]
 
 
-@_cmd("set_shard_oor", w=1.5)
+@_cmd("set_shard_oor", w=2)
 def _(b, cs):
+    if b.nsh() == 1 and b.counts["set_shard_oor"] > 0 and b.r.random() < 0.6:
+        return False
     b.local(cs, "SET SHARD TO %d" % (b.nsh() + b.r.randint(0, 3)), "set_shard_oor", expect="EZ", err="is not configured")
 
 
@@ -1169,6 +1177,14 @@ def _pause_window(b, scope, with_reload):
         how = b.r.choice([h for h in ("swap_roles", "pool_size", "pool_mode", "cache_size", "unchanged") if _reload_possible(b, h)])
         rec["reload"] = how
         _do_reload(b, how, "pause_reload_resume")
+        # the pause outlives the reload: a statement that arrives now is held as well
+        for c in b.alive():
+            if (c.user in paused_users and b.free(c) and not c.holding and c.txn == "I" and not c.removed and not c.fragile
+                    and b.holders(c.user) < user_cfg(b.cfg, c.user)["pool_size"]):
+                op = b.simple(c, [("read", "SELECT 2")], "held_by_pause", held=True, extra={"pause": pid, "after_reload_in_pause": True})
+                rec["held"].append(op["tag"])
+                b.act("held_by_pause")
+                break
     b.steps.append({"op": "sleep", "ms": 120})
     b.mark("resume:%d" % pid)
     rop = b.admin(rsql, "resume_" + scope, ack="RESUME")
@@ -1277,6 +1293,7 @@ def _do_reload(b, how, kname):
                 c.removed = True
             elif how == "readd_user" and c.user == "u2":
                 c.removed = False
+                c.readded = True
             if not c.removed and c.ps != cache_on(new, c.user):
                 c.fragile = True
     rec["epoch_after"] = b.epoch
@@ -1919,9 +1936,19 @@ def _backend_frames(tr, who, conn, lo, hi):
 def mon_C03(tr, st):
     out = []
     for op in tr.ops:
-        if op.get("proto") not in ("Q", "X") or not tr.ok_client(op) or op.get("faulted"):
+        if op.get("proto") not in ("Q", "X") or not tr.ok_upto(op) or op.get("faulted"):
             continue
         rp = tr.reply(op)
+        if rp and rp["outcome"] == "timeout" and tr.ok_upto(op) and not op.get("held") and op.get("expect") == "Z":
+            arr = tr.arrivals(op)
+            if arr:
+                who, conn = arr[0]["who"], arr[0]["conn"]
+                bf = _backend_frames(tr, who, conn, arr[0]["seq"], rp["seq"])
+                st["C03:reply_completed"] += 1
+                if sum(1 for t, _ in bf if t == "Z") >= op.get("syncs", 1):
+                    out.append({"kind": "reply_not_relayed_to_its_end", "op": op["tag"], "sql": op.get("sql"), "backend_frames": bf[:30],
+                                "client_frames": [[f.get("t"), f.get("len")] for f in rp["frames"]][:30]})
+            continue
         if not rp or rp["outcome"] != "ok":
             continue
         arr = tr.arrivals(op)
@@ -1963,6 +1990,17 @@ def mon_C03(tr, st):
 def _pool_size(cfg, user):
     u = user_cfg(cfg, user)
     return u["pool_size"] if u else None
+
+
+def _never_served(tr, op):
+    """a forwarded statement of a client whose replies matched the script so far got no reply within the (generous) timeout and
+    never reached a server, although no pause was in force, no fault had been injected and a server connection was free"""
+    if op.get("proto") not in ("Q", "X") or op.get("held") or op.get("faulted") or op.get("removed") or op.get("anypaused") or op.get("paused"):
+        return False
+    if op.get("pool_size") is None or op["holders_before"] >= op["pool_size"] or not tr.ok_upto(op):
+        return False
+    rp = tr.reply(op)
+    return bool(rp) and rp["outcome"] == "timeout" and not rp["frames"] and not tr.arrivals(op)
 
 
 def mon_C04(tr, st):
@@ -2007,10 +2045,13 @@ def mon_C04(tr, st):
                     if s_.get("txn") not in (None, "I") or s_.get("copy"):
                         out.append({"kind": "backend_session_left_in_transaction", "backend": b, "conn": o["conn"], "state": {k: s_.get(k) for k in ("txn", "copy")}})
     for op in tr.ops:
+        if _never_served(tr, op) and not any(p["at_op"] <= op["i"] for p in tr.t["pauses"]):
+            out.append({"kind": "statement_never_served_although_capacity_was_free", "op": op["tag"], "op_kind": op["kind"], "holders": op["holders_before"], "pool_size": op["pool_size"]})
+    for op in tr.ops:
         if op.get("proto") not in ("Q", "X", "R") or op.get("capacity_refused"):
             continue
         rp = tr.reply(op)
-        if not rp or not any("could not get connection from the pool" in m for m in rp["pooler_err"]):
+        if not rp or not any("could not get connection from the pool" in m and "InvalidShardId" not in m for m in rp["pooler_err"]):
             continue
         if not tr.ok_global(op["i"]) or op.get("faulted") or op.get("anypaused") or op.get("stale") or op.get("removed") or op.get("held"):
             continue
@@ -2058,7 +2099,7 @@ def mon_C06(tr, st):
     out = []
     sticky = {}
     for op in tr.ops:
-        if not tr.ok_client(op):
+        if not tr.ok_upto(op):
             continue
         if op["kind"] == "set_shard_oor":
             rp = tr.reply(op)
@@ -2076,8 +2117,16 @@ def mon_C06(tr, st):
             continue
         if op.get("proto") not in ("Q", "X", "CP", "S") or op.get("stale"):
             continue
+        rp = tr.reply(op) if op.get("expect") not in ("silence", "none") else None
+        if rp:
+            st["C06:valid_shard_accepted"] += 1
+            if any("InvalidShardId" in m for m in rp["pooler_err"]):
+                # the script only ever selects configured shards: a refused out-of-range SET SHARD must leave the selection alone
+                out.append({"kind": "statement_refused_for_an_invalid_shard_nobody_selected", "op": op["tag"], "op_kind": op["kind"], "error": rp["pooler_err"][0],
+                            "selected": op.get("shard_expect")})
+                continue
         want = op.get("shard_expect")
-        if want is None:
+        if want is None or not tr.ok_client(op):
             continue
         for m in tr.arrivals(op):
             got = shard_of(m["who"])
@@ -2269,6 +2318,9 @@ def mon_C16(tr, st):
             op = tr.by_tag[t]
             if not tr.ok_upto(op):
                 continue
+            if op.get("readded") and C16_EXCLUDE_READDED_USER:
+                st["C16:excluded_client_of_a_readded_user"] += 1
+                continue
             arr = tr.arrivals(op)
             st["C16:held_statements"] += 1
             if arr and arr[0]["seq"] < rs:
@@ -2281,6 +2333,11 @@ def mon_C16(tr, st):
             if not rp or rp["outcome"] != "ok" or rp["last"] != "Z" or not arr:
                 out.append({"kind": "held_statement_not_served_after_resume", "op": op["tag"], "sql": op["sql"], "pause": p["scope"], "reload_in_between": p.get("reload"),
                             "outcome": rp and rp["outcome"], "reached_a_server": bool(arr)})
+    for op in tr.ops:
+        if _never_served(tr, op) and any(p["at_op"] <= op["i"] for p in tr.t["pauses"]):
+            st["C16:blocked_after_resume"] += 1
+            out.append({"kind": "statement_blocked_although_every_pause_was_resumed", "op": op["tag"], "op_kind": op["kind"], "client": op["c"],
+                        "reloads": [r["how"] for r in tr.t["reloads"] if r["at_op"] <= op["i"]]})
     for op in tr.ops:
         if op["kind"] in ("holder_goes_on", "other_pool_goes_on") and tr.ok_upto(op) and not op.get("faulted") and not op.get("stale"):
             rp = tr.reply(op)
@@ -2501,8 +2558,11 @@ def run_for(run, prop):
                            "monitor": v, "scenario": scn})
     if cov["harness_failures"] > max(1, len(scns) // 10):
         run.broken.append("cross-feature mix: %d of %d scenarios failed in the harness" % (cov["harness_failures"], len(scns)))
-    cov.update({"ops_by_kind": dict(sorted(nops.items())), "monitor_evaluations": dict(sorted(st.items())), "problems": nprob, "problem_kinds": sorted(seen),
+    cov.update({"config_values": histogram(scns)["config"], "ops_by_kind": dict(sorted(nops.items())), "monitor_evaluations": dict(sorted(st.items())), "problems": nprob, "problem_kinds": sorted(seen),
                 "script_deviations_skipped": deviations, "missing_kinds": sorted(k for k in KINDS if nops[k] == 0)})
+    if prop == "C16":
+        cov["exclusions"] = ["held statements of clients whose user was removed and re-added by reloads since they connected (reported defect: the stale pool object "
+                             "of such a session does not see the pause): %d excluded" % st.get("C16:excluded_client_of_a_readded_user", 0)] if C16_EXCLUDE_READDED_USER else []
     if prop == "C19":
         cov["exclusions"] = ["denied / intercepted statements sent after SET SERVER ROLE TO 'primary'|'replica'|'any' (the command switches the session's parser and with it the "
                              "plugins off; to be repaired): %d statements excluded" % st.get("C19:excluded_after_SET_SERVER_ROLE", 0)] if C19_EXCLUDE_AFTER_SET_ROLE else []
